@@ -1,33 +1,68 @@
 /-
-  C11: error responses IN FLIGHT AT THE SAME TIME.  `AuthRequestError` / `TryErrorRedirect` (pkg/op/error.go) fill the request's
-  state and session_state INTO the `*oidc.Error` they obtained from `DefaultToServerError` and encode that object afterwards:
-      e.State = authReq.GetState()            (pc 0)
-      e.SessionState = sessionState           (pc 1)
-      AuthResponseURL(…, e, …)                (pc 2: reads both fields)
-  Between these steps other handlers run.  The model: a heap of error objects (`cell` = which object a handler works on), one
-  thread per response, a scheduler that picks any thread for its next step.  Core Lean only.
+  C11: error responses IN FLIGHT AT THE SAME TIME.  `AuthRequestError` / `TryErrorRedirect` (pkg/op/error.go) obtain the
+  `*oidc.Error` to answer with from `DefaultToServerError` — through `errors.As` that is THE CALLER'S object whenever the error
+  they were handed contains one — complete it with the request's state and session_state and encode it.  WHICH object the
+  function completes and encodes is read from the source by factgen (`GenErr.authRequestErrorProgram`,
+  `GenErr.tryErrorRedirectProgram`: a list of `Op`s in source order):
+      errCopy := *e ; e = &errCopy            .copy                 from here on `e` is an object allocated in this call
+      e.State = authReq.GetState()            .set tgt "State"      tgt = .own after a copy, .handed before
+      e.SessionState = sessionState           .set tgt "SessionState"
+      AuthResponseURL(…, e, …)                .encode tgt           reads both fields
+  Between these steps other handlers run.  The model: a heap of HANDED-IN error objects (`cell` = which one a handler was
+  given; several handlers may have been given the same one: a sentinel error of the storage), per handler one object of its
+  own (what `errCopy` is: a variable of that call, nobody else can reach it), a scheduler that picks any handler for its next
+  step.  WHAT is written (that it is the request's state) is the subject of the functional model `GenErr.AuthRequestError`
+  (`C11.authRequestError_eq`); this file is about aliasing only.  Core Lean only.
 -/
 namespace ErrPar
 
 abbrev Bytes := List UInt8
 
-/-- one error response in flight -/
-structure Thread where
-  cell : Nat                            -- the *oidc.Error object this handler fills in and encodes
-  state : Bytes                         -- the state ITS client sent
-  session : Bytes                       -- the session state of ITS request
-  pc : Nat := 0
-  sent : Bytes × Bytes := ([], [])      -- (state, session_state) that were encoded into its redirect
-  deriving Repr, Inhabited
+/-- which object a statement of the function works on -/
+inductive Tgt
+  | handed     -- the object found (errors.As) in the error the function was handed
+  | own        -- an object allocated in this call
+  deriving DecidableEq, Repr, Inhabited
+
+/-- the statements of AuthRequestError / TryErrorRedirect that concern the error object, as factgen reads them -/
+inductive Op
+  | copy                              -- `c := *e; e = &c`: the call's own object, initialised with the value of the handed one
+  | fresh                             -- `e = new(oidc.Error)` / `e = &oidc.Error{}`: the call's own object, zero value
+  | set (t : Tgt) (field : String)    -- `e.<field> = …`, also a mutator method `e.With…(…)` (field = the method's name)
+  | encode (t : Tgt)                  -- the object is handed to AuthResponseURL
+  | unsupported (src : String)        -- a statement about the error object that factgen does not understand
+  deriving DecidableEq, Repr, Inhabited
 
 /-- per error object: (State, SessionState) -/
-abbrev Heap := Nat → Bytes × Bytes
+abbrev Obj := Bytes × Bytes
+
+/-- one error response in flight -/
+structure Thread where
+  cell : Nat                            -- the *oidc.Error object this handler was HANDED (others may have been handed the same)
+  state : Bytes                         -- the state ITS client sent
+  session : Bytes                       -- the session state of ITS request
+  prog : List Op                        -- the statements it still has to execute
+  own : Obj := ([], [])                 -- the object allocated in this call (a local variable: no other handler can reach it)
+  sent : Option Obj := none             -- (state, session_state) that were encoded into its redirect
+  deriving Repr, Inhabited
+
+/-- the handed-in error objects -/
+abbrev Heap := Nat → Obj
+
+/-- the assignment `o.<field> = <the request's value>` -/
+def setField (f : String) (o : Obj) (st ss : Bytes) : Obj :=
+  if f = "State" then (st, o.2) else if f = "SessionState" then (o.1, ss) else o
 
 def stepT (h : Heap) (t : Thread) : Heap × Thread :=
-  if t.pc = 0 then (fun c => if c = t.cell then (t.state, (h c).2) else h c, { t with pc := 1 })
-  else if t.pc = 1 then (fun c => if c = t.cell then ((h c).1, t.session) else h c, { t with pc := 2 })
-  else if t.pc = 2 then (h, { t with pc := 3, sent := h t.cell })
-  else (h, t)
+  match t.prog with
+  | [] => (h, t)
+  | .copy :: rest => (h, { t with prog := rest, own := h t.cell })
+  | .fresh :: rest => (h, { t with prog := rest, own := ([], []) })
+  | .set .own f :: rest => (h, { t with prog := rest, own := setField f t.own t.state t.session })
+  | .set .handed f :: rest => (fun c => if c = t.cell then setField f (h c) t.state t.session else h c, { t with prog := rest })
+  | .encode .own :: rest => (h, { t with prog := rest, sent := some t.own })
+  | .encode .handed :: rest => (h, { t with prog := rest, sent := some (h t.cell) })
+  | .unsupported _ :: rest => (h, { t with prog := rest })
 
 /-- the scheduler lets thread `i` take its next step -/
 def step (h : Heap) (ts : Nat → Thread) (i : Nat) : Heap × (Nat → Thread) :=
@@ -36,5 +71,42 @@ def step (h : Heap) (ts : Nat → Thread) (i : Nat) : Heap × (Nat → Thread) :
 def run : List Nat → Heap → (Nat → Thread) → Heap × (Nat → Thread)
   | [], h, ts => (h, ts)
   | i :: is, h, ts => run is (step h ts i).1 (step h ts i).2
+
+/-- **the function completes and encodes an object of its own** (decidable on the regenerated statement list): every write and
+    every encoding addresses the call's own object, and when the object is encoded both `State` and `SessionState` have been
+    assigned since it was allocated; `a` / `b` = State / SessionState assigned, `e` = the answer has been encoded -/
+def okFrom (a b e : Bool) : List Op → Bool
+  | [] => e
+  | .copy :: r => okFrom false false e r
+  | .fresh :: r => okFrom false false e r
+  | .set .own f :: r => okFrom (a || f == "State") (b || f == "SessionState") e r
+  | .set .handed _ :: _ => false
+  | .encode .own :: r => a && b && okFrom a b true r
+  | .encode .handed :: _ => false
+  | .unsupported _ :: _ => false
+
+def progOK (p : List Op) : Bool := okFrom false false false p
+
+/-- the statement list of the functions BEFORE the repair of F-C11e (hand-written; not reachable from the source any more):
+    state and session_state were written into the handed-in object and that object was encoded -/
+def handedProgram : List Op := [.set .handed "State", .set .handed "SessionState", .encode .handed]
+
+/-! ### schedules of the `par` stream -/
+
+/-- the number of statements a handler executes before it reaches its (first) encoding: where the stream parks it -/
+def untilEncode : List Op → Nat
+  | [] => 0
+  | .encode _ :: _ => 0
+  | _ :: r => untilEncode r + 1
+
+/-- `A(B…)A`: the first handler runs up to its encoding, the others completely, then the first one finishes; sequential otherwise -/
+def schedOf (parked : Bool) (progs : List (List Op)) : List Nat :=
+  let whole (i : Nat) (p : List Op) : List Nat := List.replicate p.length i
+  match progs with
+  | [] => []
+  | p0 :: rest =>
+    let others := ((List.range rest.length).zip rest).flatMap fun (i, p) => whole (i + 1) p
+    if parked then List.replicate (untilEncode p0) 0 ++ others ++ List.replicate (p0.length - untilEncode p0) 0
+    else whole 0 p0 ++ others
 
 end ErrPar
